@@ -161,7 +161,7 @@ PROPS.update({
         "level_note": _DERIVE_LEVEL_NOTE + " Objects of exactly 2 members.", "assumptions": _DERIVE_ASSUME},
 })
 
-_ERRORS_UNIT = {"kind": "verus", "unit": "errors"}
+_ERRORS_UNIT = {"kind": "verus", "unit": "messages", "ce_harnesses": {"::": ["msg_paths"]}}
 PROPS["C03"]["units"] = [_IMPLS_UNIT, _JSON_TARGET_UNIT, _ERRORS_UNIT]
 for _p in ("C01", "C02", "C04"):
     PROPS[_p]["units"] = [_IMPLS_UNIT, _JSON_TARGET_UNIT]
@@ -173,7 +173,7 @@ for _p in ("C01", "C02", "C03", "C04"):
 for _p in ("C01", "C02", "C03", "C04"):
     PROPS[_p]["assumptions"] = _CONTAINER_ASSUME + _JSON_TARGET_ASSUME
     PROPS[_p]["text"] += " serde_json::Value as a *target* (src/serde_json.rs) is proved against the same postconditions in unit json_target (arrays and objects: same accumulator invariants; the only fault is a non-finite float)."
-PROPS["C03"]["text"] += " The built-in error types are proved (Verus, unit 'errors') to answer Break to every report and to return exactly the handed error from merge, so for them the result is the first report of the keep-going run."
+PROPS["C03"]["text"] += " The built-in error types are proved (Verus, unit 'messages') to answer Break to every report and to return exactly the handed error from merge, so for them the result is the first report of the keep-going run."
 PROPS["C13"] = {
     "title": "serde_json bridge is lossless and self-consistent", "level": "proof",
     "technique": "Kani/CBMC loop-free harnesses over all u64 / i64 / f64 / bool on the real IntoValue, From<Value> and Deserr impls for serde_json::Value (complete for scalars)",
@@ -272,6 +272,66 @@ PROPS["C12"]["units"] = PROPS["C12"]["units"][:3] + [_JSON_SOURCE_UNIT, _FIELDST
 for _p in ("C04", "C07", "C08"):
     PROPS[_p]["units"] = [_FIELDSTATE_UNIT] + PROPS[_p]["units"]
     PROPS[_p]["text"] += " The derive's helper FieldState (src/lib.rs) is under contract in Verus unit `fieldstate`: is_missing is true exactly for Missing (so present-but-invalid and defaulted fields are never reported missing), unwrap requires and returns the value."
+
+
+# ---- round 3: coverage added after the third batch of seeded changes --------------------------------------------------------
+def _unit_of(pid, kind, group):
+    for u in PROPS[pid]["units"]:
+        if u.get("kind") == kind and u.get("group") == group:
+            return u
+    raise KeyError((pid, kind, group))
+def _more(pid, kind, group, key, names):
+    u = dict(_unit_of(pid, kind, group)); u[key] = list(u.get(key, [])) + [n for n in names if n not in u.get(key, [])]
+    PROPS[pid]["units"] = [u if (x.get("kind") == kind and x.get("group") == group) else x for x in PROPS[pid]["units"]]
+_NEW_STRUCTS = ["derive_deffirst_2", "derive_ferr10_2"]
+_NEW_ENUMS = ["derive_tagdeny_first", "derive_tagdeny_last"]
+for _p in ("C01", "C02", "C03", "C04"):
+    _more(_p, "enum", "derive-core-enum", "harnesses", _NEW_STRUCTS + _NEW_ENUMS)
+    _more(_p, "enum", "derive-core-enum", "thorough_harnesses", ["derive_deffirst_3"])
+_more("C07", "enum", "derive-keys-enum", "harnesses", ["derive_deffirst_2"] + _NEW_ENUMS)
+_more("C08", "enum", "derive-missing-enum", "harnesses", ["derive_deffirst_2", "derive_deffirst_3"])
+_more("C09", "enum", "derive-unknown-enum", "harnesses", _NEW_ENUMS)
+_more("C10", "enum", "derive-enum-enum", "harnesses", _NEW_ENUMS)
+_more("C11", "enum", "derive-fns-enum", "harnesses", ["derive_ferr10_2"])
+_more("C12", "enum", "derive-total-enum", "harnesses", _NEW_STRUCTS + _NEW_ENUMS + ["derive_deffirst_3"])
+_more("C15", "enum", "derive-order-enum", "harnesses", ["order_camel_3", "order_lower_3", "order_deffirst_3", "order_tagged_3", "order_tagdeny_3"])
+# Kani (thorough tier) on the new catalogue types; derive_ferr10_2 also in C11's quick tier
+for _p, _g in (("C08", "derive-missing"), ("C12", "derive-total")):
+    _more(_p, "kani", _g, "thorough_filters", ["h_derive::proofs::derive_deffirst_2::check"])
+_more("C09", "kani", "derive-unknown", "thorough_filters", ["h_derive::proofs::derive_tagdeny_first::check", "h_derive::proofs::derive_tagdeny_last::check"])
+_more("C11", "kani", "derive-fns", "filters", ["h_derive::proofs::derive_ferr10_2::check"])
+_DERIVE_VERUS["ce_harnesses"].update({"for DefFirst<": ["derive_deffirst_2", "derive_deffirst_3"], "for TagDeny<": ["derive_tagdeny_first", "derive_tagdeny_last"]})
+_R3_TEXT = " Added after the third batch of seeded changes: a struct whose `default` field is declared BEFORE its required fields (DefFirst; the derive zips per-field token lists by index), a field-level error type (`error = Rec2` on a field, with and without try_from: Ferr10) and an internally tagged enum with deny_unknown_fields (TagDeny: the accepted list of a variant is its own keys, never the tag) -- DefFirst and TagDeny also in the Verus catalogue (unbounded payloads)."
+for _p in ("C07", "C08", "C09", "C10", "C11", "C12"):
+    PROPS[_p]["text"] += _R3_TEXT
+PROPS["C11"]["text"] += " The hand-over of a conversion error to the container's error type is compared event by event (obligation user_function_errors_handed_over_at_the_field_or_container_location): same position in the trace, same location."
+PROPS["C15"]["text"] += " Three-member objects in all six orders (native execution only, bounded): Camel, Lower, DefFirst, Tagged (tag at every position), TagDeny."
+PROPS["C15"]["level_note"] = PROPS["C15"]["level_note"].replace(" Objects of exactly 2 members.", " Objects of exactly 2 members under Kani; 3 members in all 6 orders by exhaustive native execution.")
+
+# C13: container part, bounded
+PROPS["C13"]["units"] = PROPS["C13"]["units"] + [{"kind": "enum", "group": "json-documents", "harnesses": ["json_documents"],
+    "bounds": "797 603 documents: nesting depth <= 2, arrays / objects of width <= 2 (keys `k`, `l l`), scalars from the statement's boundary set (0, 7, 2^53+1, u64::MAX, -1, -2^53-1, i64::MIN, 1.5, -0.0, a subnormal, 1e300, 2^64 as float, two strings with escapes / non-ASCII, null, booleans)"}]
+PROPS["C13"]["technique"] += " + exhaustive native execution of the real impls on every document up to a small size bound (container contents; bounded)"
+PROPS["C13"]["text"] += " Container part (BOUNDED, native execution of the real code, labelled so): every document of depth <= 2 and width <= 2 over the boundary scalars is viewed through deserr and rebuilt through From<Value> and through the Deserr impl with a recording error type; the result must be the same document (numbers compared by representation class and bits, so 0.0 / -0.0 and 2^64-as-float are distinguished), no report may be made, and kind() must equal the kind of the consumed view at every node."
+PROPS["C13"]["level_note"] = "Scalar part complete (Kani, full domains) and the source side unbounded (Verus json_source); contents of rebuilt arrays / objects: bounded exhaustive execution (depth <= 2, width <= 2), not proved."
+for _u in PROPS["C13"]["units"]:
+    if _u.get("group") == "json-scalars":
+        _u["assumptions"] = [a for a in _u["assumptions"] if not a.startswith("strings, arrays and objects")]
+
+# C14: path rendering and containment under contract; message text bounded
+PROPS["C14"] = {
+    "title": "Built-in error messages name the right place, value and alternatives", "level": "other",
+    "technique": "Verus on the extracted location_json_description / location_query_param_description (path rendering for every location of every depth, equal to the statement's rendering) and on JsonError::error / QueryParamError::error (always Break; the message contains the rendered path and the pieces the statement lists per kind, via generated contracts for each format! template) + bounded exhaustive native execution of the real message builders (text of every kind at every path of depth <= 3; read-back of the quoted path against the payload for a composite derived type)",
+    "design_ref": "DESIGN.md §A.8, §4 C14",
+    "units": [_ERRORS_UNIT, {"kind": "enum", "group": "message-text", "harnesses": ["msg_paths", "msg_readback"],
+              "bounds": "msg_paths: 259 locations (depth <= 3 over 3 keys and 3 indices) x 6 kinds (x up to 8 payload variants) x both error types = 3 885 runs; msg_readback: one composite derived type (struct / Vec / BTreeMap / Option / tuple / nested struct with deny_unknown_fields and defaults), every payload obtained from a valid document by one or two faults (replace by one of 9 values / remove first member / add unknown member / grow or shrink an array) at any node = 39 068 failing payloads"}],
+    "text": "Deductive part (Verus unit `messages`, all inputs): (1) the nested `rec` functions of both location renderers return exactly the statement's rendering of the location -- `.key` per member and `[i]` per element from the payload root, for query parameters the same without the leading dot -- by induction over the location (decreases), and the outer functions return nothing at the root and ` article `path`` otherwise; (2) JsonError::error and QueryParamError::error always answer Break, and the message they build contains, as contiguous pieces, the rendered path (when not at the root), and per kind: the missing field; the unknown key / value and the suggestion did_you_mean computes for it; the received and expected lengths and the JSON text of the array; the detail message; the description of the offending value and the expected-kinds phrase; (3) merge returns the handed error. Wording is not pinned: a reworded message that still contains the pieces verifies. format! is handled by rewrite R9: each call with plain `{}` / `{name}` holes becomes a generated stand-in whose assumed contract is the concatenation of the literal pieces and the Display text of the arguments; `String + &str` by R10. Bounded part (native execution, labelled so): exact location descriptions, message == root message with only the location piece inserted, pieces per kind incl. every accepted alternative between backticks and a suggestion only when one is close, and -- end to end through deserr::deserialize -- the message is the one of the first report of a keep-going run and the path read back from it resolves in the payload to the value / object / array the message talks about.",
+    "level_note": "Path rendering and containment: proved for all locations / reports (relative to the R9 contracts for format! and the stand-ins for value_kinds_description_json (C17), did_you_mean (C18), serde_json::to_string). The list of accepted alternatives (an iterator chain inside a format! argument) is opaque in Verus and covered by the bounded part only; message text beyond containment is bounded.",
+    "explanation": "Partial deductive proof (path rendering for every depth, containment of the pieces, fail-fast structure) + bounded exhaustive execution for the text itself.",
+    "assumptions": ["R9: format!(template, args) == concatenation of the template's literal pieces and the Display text of the arguments, Display of String / &str is its characters, Display of usize is one fixed (uninterpreted) decimal rendering",
+                    "R10: String + &str appends", "value_kinds_description_json, value_description_with_kind_json, value_description_with_kind_query_param, did_you_mean are functions of their arguments (opaque stand-ins); serde_json::to_string never fails on a Value",
+                    "ErrorKind / Value / IntoValue / Sequence / Map / ValuePointerRef are the repository's own definitions (extracted); serde_json::Value is an opaque stand-in"],
+}
 
 NOT_APPLICABLE = {
     "C20": "HTTP extractors are three-line async compositions of actix-web/axum extractors with deserr::deserialize; neither installed verifier can run or specify the frameworks (futures, pinning, runtime), so every obligation would be an assumed contract on actix/axum with nothing left to prove; the features are off by default and not compiled in the baseline.",
